@@ -2,7 +2,7 @@ SPECIFICATION Spec
 CONSTANTS
   CCalls = {"k1","k2"}
   NestCalls = {"k1"}
-  SCalls = {"q1"}
+  SCalls = {"q1","q2"}
   MaxLen = 6
 CONSTRAINT EmitC
 CHECK_DEADLOCK FALSE
